@@ -183,3 +183,8 @@ package augment
 //@     invariant forall i int, j int {augs[i], augs[j]} :: 0 <= i && i < j && j < len(augs) ==> augs[i] != augs[j]
 //@     invariant [C08] no-augmentation-begins-before-an-earlier-one-ended: forall i int, j int {augs[i], augs[j]} :: #k <= i && i < j && j < len(augs) ==> aEnd(augs[i]) <= aStart(augs[j])
 //@     invariant adjustments.arr == 0 || fresh(adjustments.arr)
+
+// The two stages of augmentation, each under its own contract (find*, rewrite); their composition is summarised.
+//@ func Augment(src) (out, augs, adjs, err)
+//@   trusted finds the augmentations (finder, verified) and rewrites the text (rewrite, verified): the composition is summarised
+//@   assigns nothing
